@@ -360,6 +360,11 @@ func (g *Gen) GenFunc(fn *ssa.Function) (*FuncGen, error) {
 					tags = fg.c.Tags
 				}
 				fg.undecided = append(fg.undecided, Undecided{Func: fg.key, Pos: sa.C.Pos, Text: sa.C.Text, Reason: fmt.Sprintf("no call or allocation site matches `at %s#%d`", sa.Callee, sa.N), Tags: tags})
+				lbl := sa.C.Label
+				if lbl == "" {
+					lbl = "clause"
+				}
+				fg.lost(fmt.Sprintf("at.%s.%d.%s", sa.Callee, sa.N, lbl), tags, sa.C.Pos, fmt.Sprintf("no call or allocation site matches `at %s#%d`: %s", sa.Callee, sa.N, sa.C.Text))
 			}
 		}
 	}
@@ -1269,6 +1274,35 @@ func (fg *FuncGen) finishLoops() {
 	for _, li := range fg.loops {
 		lis = append(lis, li)
 	}
+	if fg.c != nil {
+		have := map[int]bool{}
+		for _, li := range fg.loops {
+			have[li.ordinal] = true
+		}
+		var ords []int
+		for n := range fg.c.Loops {
+			ords = append(ords, n)
+		}
+		sort.Ints(ords)
+		for _, n := range ords {
+			if have[n] {
+				continue
+			}
+			ls := fg.c.Loops[n]
+			tagset := map[string]bool{}
+			for _, inv := range ls.Invariants {
+				for _, t := range pick(inv.Tags, fg.c.Tags) {
+					tagset[t] = true
+				}
+			}
+			var tags []string
+			for t := range tagset {
+				tags = append(tags, t)
+			}
+			sort.Strings(tags)
+			fg.lost(fmt.Sprintf("loop%d", n), tags, fg.c.Pos, fmt.Sprintf("the contract has invariants for loop %d, which the function does not have", n))
+		}
+	}
 	sort.Slice(lis, func(i, j int) bool { return lis[i].ordinal < lis[j].ordinal })
 	for _, li := range lis {
 		b := li.header
@@ -1832,8 +1866,27 @@ func (fg *FuncGen) clauseFailed(c *Clause) bool {
 		tags = fg.c.Tags
 	}
 	fg.undecided = append(fg.undecided, Undecided{Func: fg.key, Pos: c.Pos, Text: c.Text, Reason: fg.err.Error(), Tags: tags})
+	lbl := c.Label
+	if lbl == "" {
+		lbl = c.Kind
+	}
+	fg.lost(lbl, tags, c.Pos, fmt.Sprintf("clause cannot be stated on this code (%v): %s", fg.err, c.Text))
 	fg.err = nil
 	return true
+}
+
+// lost: a clause of the contract has lost its anchor in the code (the call site, loop, name or function it speaks
+// about is gone).  The obligation it stood for was discharged on the tree the contract was written for and can no
+// longer be generated: the property is not proved for this tree, and the check says so under the obligation's name.
+func (fg *FuncGen) lost(label string, tags []string, pos, text string) {
+	name := fmt.Sprintf("%s/lost.%s", shortKey(fg.key), label)
+	for _, o := range fg.obls {
+		if o.Name == name {
+			return
+		}
+	}
+	fg.obls = append(fg.obls, &Obligation{Name: name, Kind: "lost", Func: fg.key, Tags: tags, Guard: "true", Goal: "false", Expect: "unsat",
+		Block: -2, Via: -1, Pos: pos, Text: text})
 }
 
 // ---------------------------------------------------------------------------
